@@ -334,3 +334,16 @@ func groupShape(f *protogen.Field) string {
 	}
 	return shapeOf(f)
 }
+
+// extensionsOfFile: every extension declared in the file, at file level or inside any (nested) message.
+func extensionsOfFile(gf *protogen.File) []*protogen.Extension {
+	out := append([]*protogen.Extension(nil), gf.Extensions...)
+	for _, m := range allGenMessagesWithMaps(gf) {
+		out = append(out, m.Extensions...)
+	}
+	return out
+}
+
+func extensionGroups(gf *protogen.File) [][]*protogen.Extension {
+	return [][]*protogen.Extension{extensionsOfFile(gf)}
+}
